@@ -23,23 +23,23 @@ type CoffSym struct {
 }
 
 type CoffSec struct {
-	Name                       string
+	Name                        string
 	Size, PtrRaw, PtrRel, PtrLn uint32
-	NRel, NLn                  uint16
-	Chars                      uint32
+	NRel, NLn                   uint16
+	Chars                       uint32
 }
 
 type CoffFile struct {
-	Machine   uint16
-	NSec      uint16
-	SymPtr    uint32
-	NSyms     uint32
-	OptSize   uint16
-	Secs      []CoffSec
-	Syms      []CoffSym
-	StrTab    []byte // including the 4-byte length field
-	Text      []byte
-	Problems  []string
+	Machine  uint16
+	NSec     uint16
+	SymPtr   uint32
+	NSyms    uint32
+	OptSize  uint16
+	Secs     []CoffSec
+	Syms     []CoffSym
+	StrTab   []byte // including the 4-byte length field
+	Text     []byte
+	Problems []string
 }
 
 func cstr(b []byte) string {
